@@ -2,10 +2,11 @@
 PROPERTY = "C17"
 LEVEL = "proof"
 CONTRACT_MODULES = ["contracts.c17"]
-CARRIERS = ["batchie.sampling.sample"]
+CARRIERS = ["batchie.sampling.sample", "batchie.cli.train_model.main@sample_call"]
 LEAN = ["Batchie.div_succ", "Batchie.div_exact"]
 NATIVE = "c17.py"
 EXPLANATION = (
+    "cli/train_model.main hands --seed, --n-chains, --chain-index, --n-burnin, --thin, the trained model and the holder sized --n-samples to sampling.sample unchanged (call plumbing, proved as a region of main). "
     "Body of sampling.sample proved, for every burn-in b>=0, thinning t>=1, count n>=0, seed, n_chains>=1 and "
     "chain_index below it, against: the model is reset exactly once and before set_rng and before any step; final step "
     "count = b + n*t; the j-th recorded state is the one after step b+(j+1)*t; the holder is complete and add_theta never "
